@@ -119,6 +119,65 @@ theorem dec_failed_call_appends (p : Params) (m : Method) (s : DecState) (d : Li
   | error ee => obtain ⟨e, es⟩ := ee; rw [hf] at this; exact this
   | ok se => obtain ⟨s', es⟩ := se; rw [hf] at this; exact this
 
+/-- **Which error, for which input, also mid-session**: the first call that fails — after any
+number of successful calls on this message — fails with exactly the error the
+error-reporting batch decoder `DecProof.decodeE` (see `C01.dec_error_classified`) reports
+on the concatenation of everything fed so far, whatever the segmentation and the methods.
+(With `dec_after_error_is_fresh` this applies again to the next message, and so on.) -/
+theorem dec_first_error_classified (p : Params) (pre : List (Method × List UInt8)) (m : Method)
+    (d : List UInt8) (e : DecErr)
+    (hpre : ∀ v ∈ (Dec.calls p .initial pre).verdicts, v = none)
+    (herr : (Dec.call p m (Dec.calls p .initial pre).st d).err = some e) :
+    DecProof.decodeE p ((pre.map (·.2)).flatten ++ d) = .error e := by
+  have h := DecProof.calls_first_error p pre m d [] .initial [] hpre e herr
+  have hout : Dec.output p (pre ++ [(m, d)]) = .error e := by
+    simp only [Dec.output, h]
+  rw [DecProof.output_eq_decRun, DecProof.decRun_eq_decodeE] at hout
+  simpa using hout
+
+/-- **What the iovec holds after a failed call is a function of the input alone.**  After any
+successful calls on a message and one more call (failing or not), the bytes pushed so far
+and the outcome (the error, or the state reached) are those of the byte-at-a-time reference
+run `DecProof.foldBE` over the concatenation of everything fed so far — in particular the
+partial output a failing call leaves behind (everything decoded up to the error point, incl.
+the owed stuff sequence `BeforeChunk::decode` pushes before it validates the header byte)
+does not depend on the segmentation or the methods. -/
+theorem dec_output_until_error (p : Params) (hp : p.Valid) (pre : List (Method × List UInt8)) (m : Method)
+    (d : List UInt8) (hpre : ∀ v ∈ (Dec.calls p .initial pre).verdicts, v = none) :
+    (DecProof.emitBytes ((Dec.calls p .initial pre).emits ++ (Dec.call p m (Dec.calls p .initial pre).st d).emits),
+      (match (Dec.call p m (Dec.calls p .initial pre).st d).err with
+       | some e => Except.error e
+       | none => Except.ok (Dec.call p m (Dec.calls p .initial pre).st d).st))
+      = DecProof.foldBE p .initial ((pre.map (·.2)).flatten ++ d) :=
+  DecProof.calls_then_call_foldBE p hp pre m d .initial trivial hpre
+
+/-- … hence two ways of feeding the same bytes that both get as far as their last call leave
+the same bytes in the iovec and end the same way. -/
+theorem dec_failed_output_split_independent (p : Params) (hp : p.Valid)
+    (pre pre' : List (Method × List UInt8)) (m m' : Method) (d d' : List UInt8)
+    (hcat : (pre.map (·.2)).flatten ++ d = (pre'.map (·.2)).flatten ++ d')
+    (hpre : ∀ v ∈ (Dec.calls p .initial pre).verdicts, v = none)
+    (hpre' : ∀ v ∈ (Dec.calls p .initial pre').verdicts, v = none) :
+    DecProof.emitBytes ((Dec.calls p .initial pre).emits ++ (Dec.call p m (Dec.calls p .initial pre).st d).emits)
+      = DecProof.emitBytes ((Dec.calls p .initial pre').emits ++ (Dec.call p m' (Dec.calls p .initial pre').st d').emits) ∧
+    (Dec.call p m (Dec.calls p .initial pre).st d).err = (Dec.call p m' (Dec.calls p .initial pre').st d').err := by
+  have h1 := dec_output_until_error p hp pre m d hpre
+  have h2 := dec_output_until_error p hp pre' m' d' hpre'
+  rw [hcat] at h1
+  have h := h1.trans h2.symm
+  simp only [Prod.mk.injEq] at h
+  refine ⟨h.1, ?_⟩
+  have h3 := h.2
+  cases he : (Dec.call p m (Dec.calls p .initial pre).st d).err with
+  | none =>
+    cases he' : (Dec.call p m' (Dec.calls p .initial pre').st d').err with
+    | none => rfl
+    | some e' => rw [he, he'] at h3; cases h3
+  | some e =>
+    cases he' : (Dec.call p m' (Dec.calls p .initial pre').st d').err with
+    | none => rw [he, he'] at h3; cases h3
+    | some e' => rw [he, he'] at h3; cases h3; rfl
+
 /-- **The convention of C01 / C07 is a consequence**: `Dec.output` (the run that stops at the
 first `Err`, about which `dec_impl_refines_spec`, `dec_error_split_independent`,
 `dec_error_classified` are stated) is the session read up to its first error: the first
@@ -261,6 +320,8 @@ example : (Dec.session tp [(.copy, [1, 0x31]), (.borrow, [0xFF, 9]), (.copy, [2,
     = .ok () := by rfl
 example : Dec.output tp [(.copy, [1, 0x31]), (.borrow, [0xFF, 9]), (.copy, [2, 0x41, 0x42])]
     = .error (.invalidHeaderByte false 0xFF) := by rfl
+-- the reference run with output-at-error on that failing message: `31`, the owed `FE FD`, then the error
+example : DecProof.foldBE tp .initial [1, 0x31, 0xFF, 9] = ([0x31, 0xFE, 0xFD], .error (.invalidHeaderByte false 0xFF)) := by rfl
 -- `DReachable` is inhabited by a drained state
 example : EncProof.DReachable tp (Enc.init tp 0).1 1 ((EncProof.runE Pipe.empty (Enc.init tp 0).2).consume 7).1 :=
   .drain 7 .init
